@@ -62,6 +62,9 @@ class Result:
     def keys(self):
         return {(o["rule"], o["construct"]) for o in self.violations()}
 
+    def keys3(self):
+        return {(o["rule"], o["construct"], o["detail"]) for o in self.violations()}
+
 
 def load_known():
     if not os.path.exists(KNOWN):
